@@ -205,9 +205,9 @@ func work(ctx *runner.Ctx) {
 		}
 		cases = append(cases, cs{Session: si, Dir: "none"})
 		type mut struct{ l, m int }
-		muts := []mut{{1, 0xff}, {16, 0xff}}
+		muts := []mut{{1, 0x01}, {1, 0x80}, {1, 0xff}, {2, 0xff}, {16, 0xff}}
 		if !quick {
-			muts = []mut{{1, 0x01}, {1, 0x80}, {1, 0xff}, {2, 0xff}, {16, 0xff}, {17, 0x55}}
+			muts = []mut{{1, 0x01}, {1, 0x02}, {1, 0x04}, {1, 0x08}, {1, 0x10}, {1, 0x20}, {1, 0x40}, {1, 0x80}, {1, 0xff}, {2, 0xff}, {4, 0xff}, {16, 0xff}, {17, 0x55}}
 		}
 		for dir, n := range map[string]int{"g2e": len(r.G2E), "e2g": len(r.E2G)} {
 			for off := 0; off < n; off++ {
@@ -269,7 +269,7 @@ func main() {
 	runner.Main(runner.Spec{
 		ID:    "C16",
 		Level: "fault_enumeration",
-		Rule: "6 (thorough 8) recorded sessions of the real code - whole-circuit (circuit.Garbler/Evaluator) and streaming (Compiler.Stream/StreamEvaluator), OT = ideal and Chou-Orlandi - are re-run once for EVERY byte position of BOTH directions' transcripts with that byte XORed by 0xFF and with a 16-byte burst (thorough: masks 0x01, 0x80, 0xFF and bursts of 2, 16, 17 bytes), under the deterministic schedule of the cooperative scheduler so that 'stalls' is an exact deadlock verdict; runs happen in memory-capped child processes. Oracle: the garbler returns an error, or the session stalls/aborts, or the garbler's result equals the plain evaluation; a result without error that differs is the violation. " +
+		Rule: "6 (thorough 8) recorded sessions of the real code - whole-circuit (circuit.Garbler/Evaluator) and streaming (Compiler.Stream/StreamEvaluator), OT = ideal and Chou-Orlandi - are re-run once for EVERY byte position of BOTH directions' transcripts with that byte XORed by 0x01, 0x80 and 0xFF and with 2- and 16-byte bursts (thorough: every single bit, 0xFF and bursts of 2, 4, 16, 17 bytes), under the deterministic schedule of the cooperative scheduler so that 'stalls' is an exact deadlock verdict; runs happen in memory-capped child processes. Oracle: the garbler returns an error, or the session stalls/aborts, or the garbler's result equals the plain evaluation; a result without error that differs is the violation. " +
 			"distinct_nontrivial = distinct (session, direction, offset, burst, mask) corruptions executed",
 		Assumptions: []string{
 			"the evaluator's own result after corruption is recorded, not judged (the property protects the garbler's verdict)",
